@@ -328,6 +328,14 @@ impl<const H: usize> Writer<H> {
         let zero_header = [0u8; RECORD_HEAD_SIZE];
         self.writer.get_ref().write_all_at(&zero_header, offset)?;
         self.writer.get_ref().sync_data()?;
+        #[cfg(sierra_db_sierradb_verif)]
+        crate::verif::point(
+            "seglog.set_len",
+            &[
+                ("ino", crate::verif::ino(self.writer.get_ref())),
+                ("len", offset),
+            ],
+        );
 
         Ok(())
     }
@@ -346,6 +354,14 @@ impl<const H: usize> Writer<H> {
             trace!("flushing writer");
             self.writer.flush()?;
             self.writer.get_ref().sync_data()?;
+            #[cfg(sierra_db_sierradb_verif)]
+            crate::verif::point(
+                "seglog.fsync",
+                &[
+                    ("ino", crate::verif::ino(self.writer.get_ref())),
+                    ("len", self.write_offset),
+                ],
+            );
             self.flushed_offset.set(self.write_offset);
             self.dirty = false;
         }
